@@ -276,7 +276,92 @@ def main(p):
                      f'{len(ch2.log)} calls on the second client\'s channel, {len(ch1.log)} on the first client\'s')
 
     asyncio.run(amain())
+    conformance(p, a, lib, out, combos, build_args, VOID)
     return out
+
+
+def conformance(p, a, lib, out, combos, build_args, VOID):
+    """Seam conformance (DESIGN 4.2): the same representative call of every cell through a real grpc.server on
+    loopback TCP; what the server saw must equal what the fake channel recorded.  A difference is a harness
+    (seam-fidelity) problem, never a property violation."""
+    import concurrent.futures
+    import grpc
+    from google.auth.credentials import AnonymousCredentials
+    tp = a['proto_package']
+    arity = {f'/{tp}.{c["service"]}/{c["rpc"]}': c['arity'] for c in a['cells']}
+    seen = []
+    replies = {}
+
+    class Handler(grpc.GenericRpcHandler):
+        def service(self, details):
+            kind = arity.get(details.method)
+            if kind is None:
+                return None
+            md = [(k, v) for k, v in details.invocation_metadata if k == 'x-goog-request-params']
+
+            def uu(req, ctx):
+                seen.append((details.method, [req], md))
+                return replies[details.method][0]
+
+            def us(req, ctx):
+                seen.append((details.method, [req], md))
+                yield from replies[details.method]
+
+            def su(it, ctx):
+                seen.append((details.method, list(it), md))
+                return replies[details.method][0]
+
+            def ss(it, ctx):
+                seen.append((details.method, list(it), md))
+                yield from replies[details.method]
+            return {'unary_unary': grpc.unary_unary_rpc_method_handler(uu), 'unary_stream': grpc.unary_stream_rpc_method_handler(us),
+                    'stream_unary': grpc.stream_unary_rpc_method_handler(su), 'stream_stream': grpc.stream_stream_rpc_method_handler(ss)}[kind]
+
+    out['conformance'] = dict(calls=0, mismatches=[], skipped=None)
+    try:
+        server = grpc.server(concurrent.futures.ThreadPoolExecutor(max_workers=4))
+        server.add_generic_rpc_handlers((Handler(),))
+        port = server.add_insecure_port('127.0.0.1:0')
+        server.start()
+    except BaseException as e:
+        out['conformance']['skipped'] = f'no loopback socket: {type(e).__name__}: {e}'
+        return
+    try:
+        chan = grpc.insecure_channel(f'127.0.0.1:{port}')
+        clients = {}
+        for cell in a['cells']:
+            svc = cell['service']
+            C = lib.client_cls(svc)
+            if svc not in clients:
+                clients[svc] = (C(transport=C.get_transport_class('grpc')(channel=chan, credentials=AnonymousCredentials())),) + lib.sync(svc)
+            real, fake, fch = clients[svc]
+            form, vlabel, reqs, rlabel, reply, Dreq, Dresp = [x for x in combos(cell)][-1]
+            raw = [r.SerializeToString() for r in reply] if isinstance(reply, list) else [reply.SerializeToString()]
+            path = f'/{tp}.{svc}/{cell["rpc"]}'
+            replies[path] = raw
+            del seen[:]
+            fch.log.clear()
+            fch.script = [raw] if isinstance(reply, list) else [raw[0]]
+            try:
+                for client in (real, fake):
+                    ret = getattr(client, cell['py'])(**build_args(cell, form, reqs))
+                    if cell['arity'].endswith('_stream') and not VOID(cell):
+                        list(ret)
+            except BaseException as e:
+                out['conformance']['mismatches'].append(dict(cell=cell['id'], what=f'call failed: {type(e).__name__}: {str(e)[:200]}'))
+                continue
+            out['conformance']['calls'] += 1
+            if len(seen) != 1 or len(fch.log) != 1:
+                out['conformance']['mismatches'].append(dict(cell=cell['id'], what=f'server saw {len(seen)} calls, fake {len(fch.log)}'))
+                continue
+            m, sreqs, smd = seen[0]
+            e = fch.log[0]
+            fraw = e['raw'] if isinstance(e['raw'], list) else [e['raw']]
+            fmd = [(k, v) for k, v in (e['metadata'] or []) if k == 'x-goog-request-params']
+            if m != e['path'] or [Dreq.FromString(x) for x in sreqs] != [Dreq.FromString(x) for x in fraw] or smd != fmd:
+                out['conformance']['mismatches'].append(dict(cell=cell['id'], what=f'server {m} {smd} vs fake {e["path"]} {fmd}'))
+    finally:
+        server.stop(0)
 
 
 if __name__ == '__main__':
